@@ -427,4 +427,13 @@ class UnmanagedBSE(ManagedBSE):
             if status[3] != len(blocked_get):
                 out.append(s.vio('C05', f'at rest status().waiting is {status[3]} while {len(blocked_get)} callers are blocked in get()', st))
             if snap['queue'] != avail: out.append(s.vio('C05', f'the queue holds {snap["queue"]} objects, ground truth {avail}', st))
+            # nobody waits in vain: with every pending call queued (none holds or was promised a permit) a getter may only be queued
+            # while no object is in the pool, an adder only while the pool is full
+            inflight = [t for t in pending if t not in queued]
+            if not inflight:
+                blocked_add = [t for t in queued if st.threads[t].local['pending_variant'][0] == 'add']
+                if blocked_get and avail > 0:
+                    out.append(s.vio('C05', f'{blocked_get} wait(s) in get() although {avail} object(s) are waiting in the pool', st))
+                if blocked_add and s.M.must(st, z(binop('Lt', I(size), st.gget('max_size')))):
+                    out.append(s.vio('C05', f'{blocked_add} wait(s) in add() although the pool holds only {size} objects', st))
         return out
